@@ -15,27 +15,27 @@ import (
 // Event is something observable that happened on a path: a fetch from an iterator, an emission to a
 // bits writer, a call of a sibling structure function, or a summarised loop.
 type Event struct {
-	Kind  string     // "emit", "fetch", "call", "loop", "skip"
-	Obj   string     // writer / iterator object id
-	Width lin.Form   // bits (emit) or bytes (fetch)
-	Off   lin.Form   // fetch: cursor before the fetch
-	Val   Val        // emitted value / fetched slice
-	Type  string     // static type of the emitted operand, callee name for "call"
+	Kind  string   // "emit", "fetch", "call", "loop", "skip"
+	Obj   string   // writer / iterator object id
+	Width lin.Form // bits (emit) or bytes (fetch)
+	Off   lin.Form // fetch: cursor before the fetch
+	Val   Val      // emitted value / fetched slice
+	Type  string   // static type of the emitted operand, callee name for "call"
 	Pos   token.Pos
-	ID    string     // event identity (SSA value name)
-	Body  [][]Event  // loop: events of each distinct body path
-	Guard []string   // loop: guard of each body path
-	Key   string     // loop key
+	ID    string    // event identity (SSA value name)
+	Body  [][]Event // loop: events of each distinct body path
+	Guard []string  // loop: guard of each body path
+	Key   string    // loop key
 }
 
 // countedLoop describes `for idx := start; idx < bound; idx++` / `for _, x := range slice`.
 type countedLoop struct {
-	phi    *ssa.Phi  // index phi at the header
-	cmpVal ssa.Value // the value compared against bound (phi or phi+1)
-	bound  ssa.Value
-	start  int64     // constant part of cmpVal on the first test
-	dynStart bool    // the phi's entry value is not a single constant: use the value on the entry edge
-	bodyS  int       // index of the in-loop successor of the header
+	phi      *ssa.Phi  // index phi at the header
+	cmpVal   ssa.Value // the value compared against bound (phi or phi+1)
+	bound    ssa.Value
+	start    int64 // constant part of cmpVal on the first test
+	dynStart bool  // the phi's entry value is not a single constant: use the value on the entry edge
+	bodyS    int   // index of the in-loop successor of the header
 }
 
 func findCountedLoop(h *ssa.BasicBlock, body map[*ssa.BasicBlock]bool) *countedLoop {
@@ -564,7 +564,7 @@ func (st *State) finishSum(h *ssa.BasicBlock, li *loopInfo, cl *countedLoop, col
 	}
 	// loop event
 	if len(col.paths) > 0 {
-		le := Event{Kind: "loop", Key: loopKey, Pos: loopPosOf(h)}
+		le := Event{Kind: "loop", Key: loopKey, Width: nForm, Pos: loopPosOf(h)}
 		seen := map[string]bool{}
 		for _, p := range col.paths {
 			sig := p.guard + "|" + eventsSig(p.events)
@@ -607,7 +607,6 @@ func eventsSig(evs []Event) string {
 	}
 	return sb.String()
 }
-
 
 func abs64(x int64) int64 {
 	if x < 0 {
